@@ -506,6 +506,13 @@ CHECKS = {
             dict(name="random", run="TestC17Random", checks=dict(quick=20000, thorough=100000), shards=dict(quick=1, thorough=16)),
             dict(name="reload", run="TestC17Reload", checks=dict(quick=150, thorough=1500), shards=dict(quick=4, thorough=16)),
             dict(name="degenerate", run="TestC17Degenerate", checks=dict(quick=12000, thorough=60000), shards=dict(quick=1, thorough=8)),
+            # the caller edits, in place and at every depth, every message it owns: copies obtained from Current() (drafts never loaded), read-modify-write loads of such
+            # a copy (accepted / rejected invalid / rejected stale), messages whose load was rejected, configurations a later load superseded; Current() must stay the
+            # last accepted configuration and later loads must announce exactly the model's difference
+            dict(name="alias", run="TestC17Alias", checks=dict(quick=6000, thorough=60000), shards=dict(quick=2, thorough=8)),
+            # 2-3 loads in flight on one Config, the first parked inside one of its handler calls (harness-owned handlers, launch-while-parked); results, the handler
+            # calls in invocation order (uninterrupted batches) and the final Current() must be those of ONE sequential order; replay in invocation order yields Current()
+            dict(name="overlap", run="TestC17Overlap", checks=dict(quick=4000, thorough=40000), shards=dict(quick=2, thorough=8)),
         ],
     ),
     "C02": dict(
